@@ -1,4 +1,308 @@
-From Coq Require Import List Bool Arith.
-From PE Require Import Model.Classif Proofs.ClassifProofs.
-Theorem C11_placeholder : True. Proof. exact placeholder. Qed.
-Print Assumptions C11_placeholder.
+(* C11 -- Classification pairs objects by identity and scores them by label agreement.
+
+   Model: Model/Classif.v (get_object_results for ROI-less DynamicObject2D: _get_object_results_with_id = [id_match],
+   _get_object_results_for_tlr = [tlr_match]; ClassificationAccuracy = [classification_accuracy];
+   ClassificationMetricsScore(...)._summarize() = [summarize (accuracies ...)]).  An object of the caller's list l is
+   (i, facts) with i its position: [In (i, o) (indexed l) <-> nth_error l i = Some o] (ClassifProofs.In_indexed).
+   A result is (estimate, Some ground-truth) or (estimate, None).  Only statements here; proofs in
+   Proofs/ClassifProofs.v.  Vocabulary used below (all defined there or in the model, one line each):
+     est_ids R / gt_ids R     positions of the estimates / of the ground truths used by the results R
+     uuid_cam o               (o_uuid o, o_cam o)
+     all_uuid_set l           no object of l has uuid None
+     cnt f l                  length (filter f l)
+     TPs rs / FPs rs          number of results with / without is_label_correct (GT present and equally labelled, or GT "FP")
+     is_ratio s n d           (d == 0 -> s = Inf) /\ (~ d == 0 -> exists q, s = Fin q /\ q == n / d)
+     in_unit s                s = Fin q -> 0 <= q <= 1        is_one s: exists q, s = Fin q /\ q == 1 *)
+From Coq Require Import List Bool Arith ZArith QArith.
+From PE Require Import Base.QUtil Model.Classif Proofs.ClassifProofs.
+Import ListNotations.
+Local Open Scope nat_scope.
+
+(* ------------------------------------------------------------------------------------------ *)
+(* dispatch                                                                                    *)
+(* ------------------------------------------------------------------------------------------ *)
+Theorem C11_no_estimates : forall tlr uf gts, get_object_results tlr uf [] gts = Ok [].
+Proof. exact get_results_no_estimates. Qed.
+Print Assumptions C11_no_estimates.
+
+Theorem C11_no_ground_truth : forall tlr uf ests,
+  ests <> [] -> get_object_results tlr uf ests [] = Ok (fp_results (indexed ests)).
+Proof. exact get_results_no_ground_truth. Qed.
+Print Assumptions C11_no_ground_truth.
+
+Theorem C11_dispatch : forall tlr uf ests gts,
+  ests <> [] -> gts <> [] ->
+  get_object_results tlr uf ests gts = if tlr then tlr_match uf ests gts else id_match ests gts.
+Proof. exact get_results_dispatch. Qed.
+Print Assumptions C11_dispatch.
+
+(* ------------------------------------------------------------------------------------------ *)
+(* generic objects: paired iff same uuid and same camera, each object used at most once         *)
+(* ------------------------------------------------------------------------------------------ *)
+Theorem C11_id_match_spec : forall ests gts,
+  all_uuid_set ests -> all_uuid_set gts -> NoDup (map uuid_cam ests) -> NoDup (map uuid_cam gts) ->
+  exists R, id_match ests gts = Ok R /\
+    (forall e g, In (e, Some g) R <->
+       In e (indexed ests) /\ In g (indexed gts) /\
+       o_uuid (snd e) = o_uuid (snd g) /\ o_cam (snd e) = o_cam (snd g)) /\
+    NoDup (est_ids R) /\ NoDup (gt_ids R) /\
+    (* ground-truth-less results: exactly the unpaired estimates, and only if none of them sits in CAM_TRAFFIC_LIGHT *)
+    (forall e, In (e, None) R <->
+       In e (id_unpaired (indexed ests) (indexed gts)) /\
+       existsb (fun x => o_tlcam (snd x)) (id_unpaired (indexed ests) (indexed gts)) = false).
+Proof. exact id_match_spec. Qed.
+Print Assumptions C11_id_match_spec.
+
+(* where "unpaired" means: no ground truth with the same uuid in the same camera *)
+Theorem C11_id_unpaired_meaning : forall es gs e,
+  In e (id_unpaired es gs) <->
+  In e es /\ forall g, In g gs -> ~ (o_uuid (snd e) = o_uuid (snd g) /\ o_cam (snd e) = o_cam (snd g)).
+Proof. exact In_id_unpaired. Qed.
+Print Assumptions C11_id_unpaired_meaning.
+
+(* the whole result list, in the order the code produces it *)
+Theorem C11_id_match_is_spec : forall ests gts,
+  all_uuid_set ests -> all_uuid_set gts -> NoDup (map uuid_cam ests) -> NoDup (map uuid_cam gts) ->
+  id_match ests gts = Ok (id_spec ests gts).
+Proof. exact id_match_eq_spec. Qed.
+Print Assumptions C11_id_match_is_spec.
+
+(* ------------------------------------------------------------------------------------------ *)
+(* traffic lights (no hypothesis on uuids is needed beyond "the matcher returned")              *)
+(* ------------------------------------------------------------------------------------------ *)
+Theorem C11_tlr_one_to_one : forall uf ests gts R,
+  tlr_match uf ests gts = Ok R ->
+  NoDup (est_ids R) /\ NoDup (gt_ids R) /\
+  forall r, In r R -> exists e g, r = (e, Some g) /\ In e (indexed ests) /\ In g (indexed gts).
+Proof. exact tlr_one_to_one. Qed.
+Print Assumptions C11_tlr_one_to_one.
+
+Theorem C11_tlr_same_camera : forall uf ests gts R,
+  tlr_match uf ests gts = Ok R ->
+  forall e g, In (e, Some g) R -> o_cam (snd e) = o_cam (snd g).
+Proof. exact tlr_same_camera. Qed.
+Print Assumptions C11_tlr_same_camera.
+
+(* label(+uuid)-equal pairs first, then uuid-equal pairs with different labels; each stage leaves nothing pairable *)
+Theorem C11_tlr_stage_order : forall uf ests gts R,
+  tlr_match uf ests gts = Ok R ->
+  exists R1 R2, R = R1 ++ R2 /\
+    (forall e g, In (e, Some g) R1 ->
+       o_label (snd e) = o_label (snd g) /\ o_cam (snd e) = o_cam (snd g) /\
+       (uf = true -> o_uuid (snd e) = o_uuid (snd g))) /\
+    (forall e g, In (e, Some g) R2 ->
+       o_uuid (snd e) = o_uuid (snd g) /\ o_cam (snd e) = o_cam (snd g) /\
+       o_label (snd e) <> o_label (snd g)) /\
+    (forall e g, In e (indexed ests) -> In g (indexed gts) -> cond_label uf (snd e) (snd g) = true ->
+       In (fst e) (est_ids R1) \/ In (fst g) (gt_ids R1)) /\
+    (forall e g, In e (indexed ests) -> In g (indexed gts) -> cond_id (snd e) (snd g) = true ->
+       In (fst e) (est_ids R) \/ In (fst g) (gt_ids R)).
+Proof. exact tlr_stage_order. Qed.
+Print Assumptions C11_tlr_stage_order.
+
+Theorem C11_cond_label_meaning : forall uf a b,
+  cond_label uf a b = true <->
+  o_label a = o_label b /\ o_cam a = o_cam b /\ (uf = true -> o_uuid a = o_uuid b).
+Proof. exact cond_label_iff. Qed.
+Print Assumptions C11_cond_label_meaning.
+
+Theorem C11_cond_id_meaning : forall a b, cond_id a b = true <-> o_uuid a = o_uuid b /\ o_cam a = o_cam b.
+Proof. exact cond_id_iff. Qed.
+Print Assumptions C11_cond_id_meaning.
+
+(* For EVERY one-to-one pairing P of estimates with ground truths whose pairs are in the same camera (and, with
+   uuid_matching_first, carry the same uuid), the number of equally-labelled pairs of P is at most the model's. *)
+Theorem C11_tlr_label_pairs_maximal : forall uf ests gts R,
+  tlr_match uf ests gts = Ok R ->
+  forall P : list (iobj * iobj),
+    ((forall p, In p P -> In (fst p) (indexed ests) /\ In (snd p) (indexed gts)) /\
+     NoDup (map (fun p : iobj * iobj => fst (fst p)) P) /\
+     NoDup (map (fun p : iobj * iobj => fst (snd p)) P)) ->
+    (forall p, In p P -> o_cam (snd (fst p)) = o_cam (snd (snd p)) /\
+                         (uf = true -> o_uuid (snd (fst p)) = o_uuid (snd (snd p)))) ->
+    cnt (fun p : iobj * iobj => label_eqb (snd (fst p)) (snd (snd p))) P <= cnt same_label_result R.
+Proof. exact tlr_label_pairs_maximal. Qed.
+Print Assumptions C11_tlr_label_pairs_maximal.
+
+(* the guarded removals never fail: the only possible error is a missing uuid *)
+Theorem C11_tlr_never_fails_on_remove : forall uf ests gts, tlr_match uf ests gts <> Error ErrRemove.
+Proof. exact tlr_error_only_uuid. Qed.
+Print Assumptions C11_tlr_never_fails_on_remove.
+
+(* the matcher succeeds whenever every uuid is set, so the statements above are not vacuous ... *)
+Theorem C11_tlr_succeeds : forall uf ests gts,
+  all_uuid_set ests -> all_uuid_set gts -> exists R, tlr_match uf ests gts = Ok R.
+Proof. exact tlr_match_ok. Qed.
+Print Assumptions C11_tlr_succeeds.
+
+(* ... and an object without uuid is never silently accepted by either matcher (both lists non-empty) *)
+Theorem C11_uuid_none_rejected : forall tlr uf ests gts R,
+  ests <> [] -> gts <> [] -> get_object_results tlr uf ests gts = Ok R ->
+  all_uuid_set ests /\ all_uuid_set gts.
+Proof. exact uuid_none_rejected. Qed.
+Print Assumptions C11_uuid_none_rejected.
+
+(* ------------------------------------------------------------------------------------------ *)
+(* scores                                                                                      *)
+(* ------------------------------------------------------------------------------------------ *)
+(* ClassificationAccuracy: TP/FP are counts over the results; accuracy = TP/(N+G-TP), precision = TP/N,
+   recall = TP/G, F1 = 2TP/(N+G); float("inf") exactly when the respective denominator is 0
+   (F1: when precision or recall is undefined or TP = 0). *)
+Theorem C11_scores_are_counting_defs : forall rs g,
+  let a := classification_accuracy rs g in
+  let N := length rs in
+  let TP := TPs rs in
+  a_num_res a = N /\ a_num_gt a = g /\ a_tp a = TP /\ a_fp a = FPs rs /\ TP + FPs rs = N /\
+  is_ratio (a_accuracy a) (Qnat TP) (Qnat N + Qnat g - Qnat TP) /\
+  is_ratio (a_precision a) (Qnat TP) (Qnat N) /\
+  is_ratio (a_recall a) (Qnat TP) (Qnat g) /\
+  ((N = 0 \/ g = 0 \/ TP = 0) -> a_f1 a = Inf) /\
+  (N <> 0 -> g <> 0 -> TP <> 0 -> exists q, a_f1 a = Fin q /\ (q == 2 * Qnat TP / (Qnat N + Qnat g))%Q).
+Proof. exact accuracy_counting_defs. Qed.
+Print Assumptions C11_scores_are_counting_defs.
+
+(* _summarize over the per-label accuracies built from divide_objects / divide_objects_to_num: the same
+   definitions over the pooled counts; here F1 is nan (not inf) when precision or recall is undefined. *)
+Theorem C11_summary_scores_are_counting_defs : forall T rs gts a p r f,
+  summarize (accuracies T rs gts) = (a, p, r, f) ->
+  let N := Ntot T rs in let G := Gtot T gts in let TP := TPtot T rs in
+  TP + FPtot T rs = N /\
+  is_ratio a (Qnat TP) (Qnat N + Qnat G - Qnat TP) /\
+  is_ratio p (Qnat TP) (Qnat N) /\
+  is_ratio r (Qnat TP) (Qnat G) /\
+  ((N = 0 \/ G = 0) -> f = NaN) /\
+  (N <> 0 -> G <> 0 -> TP = 0 -> f = Inf) /\
+  (N <> 0 -> G <> 0 -> TP <> 0 -> exists q, f = Fin q /\ (q == 2 * Qnat TP / (Qnat N + Qnat G))%Q).
+Proof. exact summary_counting_defs. Qed.
+Print Assumptions C11_summary_scores_are_counting_defs.
+
+Theorem C11_scores_unit_interval : forall rs g,
+  TPs rs <= g ->
+  let a := classification_accuracy rs g in
+  in_unit (a_accuracy a) /\ in_unit (a_precision a) /\ in_unit (a_recall a) /\ in_unit (a_f1 a).
+Proof. exact accuracy_unit_interval. Qed.
+Print Assumptions C11_scores_unit_interval.
+
+Theorem C11_summary_scores_unit_interval : forall T rs gts a p r f,
+  summarize (accuracies T rs gts) = (a, p, r, f) ->
+  TPtot T rs <= Gtot T gts ->
+  in_unit a /\ in_unit p /\ in_unit r /\ in_unit f.
+Proof. exact summary_unit_interval. Qed.
+Print Assumptions C11_summary_scores_unit_interval.
+
+(* the hypothesis TP <= number of ground truths holds for whatever the matchers return *)
+Theorem C11_tlr_tp_le_gt : forall uf ests gts R, tlr_match uf ests gts = Ok R -> TPs R <= length gts.
+Proof. exact tlr_tp_le_gt. Qed.
+Print Assumptions C11_tlr_tp_le_gt.
+
+Theorem C11_id_tp_le_gt : forall ests gts,
+  all_uuid_set ests -> all_uuid_set gts -> NoDup (map uuid_cam ests) -> NoDup (map uuid_cam gts) ->
+  exists R, id_match ests gts = Ok R /\ TPs R <= length gts.
+Proof. exact id_tp_le_gt. Qed.
+Print Assumptions C11_id_tp_le_gt.
+
+(* per label and pooled: TP <= number of ground truths of the target labels (no ground truth carries the FP label),
+   hence the summary scores of whatever the matchers return are in [0,1] whenever they are numbers *)
+Theorem C11_tlr_summary_unit_interval : forall uf ests gts R T a p r f,
+  tlr_match uf ests gts = Ok R -> (forall g, In g gts -> o_fp g = false) ->
+  summarize (accuracies T R gts) = (a, p, r, f) ->
+  in_unit a /\ in_unit p /\ in_unit r /\ in_unit f.
+Proof. exact tlr_summary_unit_interval. Qed.
+Print Assumptions C11_tlr_summary_unit_interval.
+
+Theorem C11_id_summary_unit_interval : forall ests gts T,
+  all_uuid_set ests -> all_uuid_set gts -> NoDup (map uuid_cam ests) -> NoDup (map uuid_cam gts) ->
+  (forall g, In g gts -> o_fp g = false) ->
+  exists R, id_match ests gts = Ok R /\
+    forall a p r f, summarize (accuracies T R gts) = (a, p, r, f) ->
+                    in_unit a /\ in_unit p /\ in_unit r /\ in_unit f.
+Proof. exact id_summary_unit_interval. Qed.
+Print Assumptions C11_id_summary_unit_interval.
+
+(* every ground truth paired with an equally-labelled estimate and nothing else reported: N = G = TP > 0 *)
+Theorem C11_scores_all_one_when_perfect : forall rs g,
+  0 < g -> length rs = g -> (forall r, In r rs -> is_label_correct r = true) ->
+  let a := classification_accuracy rs g in
+  is_one (a_accuracy a) /\ is_one (a_precision a) /\ is_one (a_recall a) /\ is_one (a_f1 a).
+Proof. exact accuracy_all_one_when_perfect. Qed.
+Print Assumptions C11_scores_all_one_when_perfect.
+
+Theorem C11_summary_all_one_when_perfect : forall T rs gts a p r f,
+  summarize (accuracies T rs gts) = (a, p, r, f) ->
+  0 < Gtot T gts -> Ntot T rs = Gtot T gts -> TPtot T rs = Gtot T gts ->
+  is_one a /\ is_one p /\ is_one r /\ is_one f.
+Proof. exact summary_all_one_when_perfect. Qed.
+Print Assumptions C11_summary_all_one_when_perfect.
+
+(* ------------------------------------------------------------------------------------------ *)
+(* non-vacuity: the hypotheses are satisfiable on inputs that exercise the interesting branches  *)
+(* ------------------------------------------------------------------------------------------ *)
+(* cameras: 1 = CAM_TRAFFIC_LIGHT, 3 = CAM_TRAFFIC_LIGHT_NEAR; labels 0/1/2 *)
+Definition ex_ests : list obj :=
+  [mkObj (Some 1) 1 0 true false; mkObj (Some 2) 1 1 true false; mkObj (Some 3) 3 1 false false].
+Definition ex_gts : list obj :=
+  [mkObj (Some 1) 1 1 true false; mkObj (Some 2) 1 0 true false; mkObj (Some 3) 3 2 false false].
+
+Example C11_nonvacuous_hypotheses :
+  all_uuid_set ex_ests /\ all_uuid_set ex_gts /\ NoDup (map uuid_cam ex_ests) /\ NoDup (map uuid_cam ex_gts).
+Proof.
+  repeat split.
+  - intros o [<-|[<-|[<-|[]]]]; discriminate.
+  - intros o [<-|[<-|[<-|[]]]]; discriminate.
+  - repeat constructor; simpl; intuition discriminate.
+  - repeat constructor; simpl; intuition discriminate.
+Qed.
+
+(* label stage pairs (0,1),(1,0) crosswise, the uuid stage then pairs (2,2) with different labels *)
+Example C11_nonvacuous_tlr :
+  option_map ids_of (match tlr_match false ex_ests ex_gts with Ok R => Some R | Error _ => None end)
+  = Some [(0, Some 1); (1, Some 0); (2, Some 2)] /\
+  option_map ids_of (match tlr_match true ex_ests ex_gts with Ok R => Some R | Error _ => None end)
+  = Some [(0, Some 0); (1, Some 1); (2, Some 2)].
+Proof. split; vm_compute; reflexivity. Qed.
+
+(* a competing admissible pairing (by uuid) with 0 equally-labelled pairs, against the model's 2 *)
+Example C11_nonvacuous_maximal :
+  let P := combine (indexed ex_ests) (indexed ex_gts) in
+  ((forall p, In p P -> In (fst p) (indexed ex_ests) /\ In (snd p) (indexed ex_gts)) /\
+   NoDup (map (fun p : iobj * iobj => fst (fst p)) P) /\
+   NoDup (map (fun p : iobj * iobj => fst (snd p)) P)) /\
+  (forall p, In p P -> o_cam (snd (fst p)) = o_cam (snd (snd p))) /\
+  cnt (fun p : iobj * iobj => label_eqb (snd (fst p)) (snd (snd p))) P = 0 /\
+  (match tlr_match false ex_ests ex_gts with Ok R => cnt same_label_result R | Error _ => 0 end) = 2.
+Proof.
+  cbv zeta. repeat split.
+  - destruct H as [<-|[<-|[<-|[]]]]; simpl; auto.
+  - destruct H as [<-|[<-|[<-|[]]]]; simpl; auto.
+  - simpl. repeat constructor; simpl; intuition discriminate.
+  - simpl. repeat constructor; simpl; intuition discriminate.
+  - intros p [<-|[<-|[<-|[]]]]; reflexivity.
+Qed.
+
+(* generic matcher on the same objects: all three are paired by uuid; with a stranger estimate on CAM_FRONT (0)
+   the stranger is reported without ground truth, on CAM_TRAFFIC_LIGHT (1) it is dropped *)
+Example C11_nonvacuous_generic :
+  option_map ids_of (match id_match (ex_ests ++ [mkObj (Some 9) 0 0 false false]) ex_gts with Ok R => Some R | Error _ => None end)
+  = Some [(0, Some 0); (1, Some 1); (2, Some 2); (3, None)] /\
+  option_map ids_of (match id_match (ex_ests ++ [mkObj (Some 9) 1 0 true false]) ex_gts with Ok R => Some R | Error _ => None end)
+  = Some [(0, Some 0); (1, Some 1); (2, Some 2)].
+Proof. split; vm_compute; reflexivity. Qed.
+
+(* the hypotheses are needed: a duplicated (uuid, camera) makes list.remove fail, a missing uuid raises *)
+Example C11_malformed_inputs_are_errors :
+  id_match [mkObj (Some 1) 1 0 true false] [mkObj (Some 1) 1 0 true false; mkObj (Some 1) 1 1 true false] = Error ErrRemove /\
+  id_match [mkObj None 1 0 true false] [mkObj (Some 1) 1 0 true false] = Error ErrUuidNone /\
+  tlr_match false [mkObj (Some 1) 1 0 true false] [mkObj None 1 0 true false] = Error ErrUuidNone.
+Proof. repeat split; vm_compute; reflexivity. Qed.
+
+(* scores on the traffic-light example: 2 of 3 pairs are label-correct *)
+Example C11_nonvacuous_scores :
+  match tlr_match false ex_ests ex_gts with
+  | Ok R => let a := classification_accuracy R (length ex_gts) in
+            (a_tp a, a_fp a) = (2, 1) /\
+            score_close (a_accuracy a) (Some (Some (1 # 2)%Q)) = true /\
+            score_close (a_precision a) (Some (Some (2 # 3)%Q)) = true /\
+            score_close (a_f1 a) (Some (Some (2 # 3)%Q)) = true
+  | Error _ => False
+  end.
+Proof. vm_compute. repeat split; reflexivity. Qed.
